@@ -1,1 +1,18 @@
-fn main() {}
+//! Monitors for the rate limiter and the sync announcer/fetcher state machines:
+//! C17 (rate limiting admits at most capacity plus refill), C25 (sync targets report success
+//! exactly when reached).
+mod c17;
+mod c25;
+
+fn main() {
+    vcommon::install_panic_hook();
+    let args = vcommon::Args::parse();
+    match args.prop.as_str() {
+        "C17" => c17::run(&args),
+        "C25" => c25::run(&args),
+        p => {
+            eprintln!("h-sync: unknown property {p}");
+            std::process::exit(2);
+        }
+    }
+}
